@@ -56,13 +56,25 @@ RULE = ("E2 (correspondence): the shared online generator of harness/e2.py drive
         "of one pattern with sub-patterns {none,[0-9],[a-z],[A-Z]} owned by the plan and two other steps; "
         "startup.rescan_nglobs and process_nglob_changes with nothing changed must leave steps, stored hashes "
         "and recorded matches alone; after one file appears or disappears exactly the owners whose match set "
-        "changes (independent matcher) are PENDING without hash and the recorded matches equal a fresh scan")
+        "changes (independent matcher) are PENDING without hash and the recorded matches equal a fresh scan. "
+        "Since session 4: in the restart flavour a tracked variable may change together with the sources (clause: "
+        "tracks an edited variable); steps with amended inputs are inside the skip rule when none of their amended "
+        "inputs can become unavailable during the rebuild; the absorbed family carries the features amend (a script "
+        "step amending the absorber's output), glob (absorbers per match; a match changes and/or a new one appears: "
+        "the owner is rerun and recycles), optional (an OPTIONAL step a mandatory one needs), envedit; for the shapes "
+        "the engine model/Engine.v expresses (3/4 of them) the model (static engine with retarget, or the gated amend "
+        "engine), evaluated inside Coq on the two worlds, must execute exactly the steps the director executed, skip "
+        "only steps the director skipped and change exactly the outputs that changed; the shapes of the graphs the "
+        "cone rebuilds start from, of the edits and of the executed / skipped steps are counted (e3:cone:*)")
 TRUSTED_BASE = [
     "Coq 8.16.1 kernel; vm_compute in Examples, tie lemmas and in the correspondence evaluation; no native_compute",
     "Print Assumptions: Closed under the global context for every C04 theorem",
     "hand-written models coq/model/Graph.v (owned by C09, tied by the shared E2 correspondence) and "
     "coq/model/Noop.v (dispatch guard, required as a closure, revert_optional, end_of_phase_b, quiescent_success_b, "
     "startup_ops, watch_ops, cone, tcone / cone_op2 and their executable versions)",
+    "coq/model/Engine.v (owned by C01: digests as traces, skip check, pending propagation, retarget, amended inputs; tied "
+    "by C01's correspondence and by check_cone_dyn / check_cone_amend on C04's absorbed cases) and coq/model/NoopExec.v "
+    "(ran, exec_cause, exec_cause_a: what the executed-cone theorems state)",
     "C09's invariant inv_core_b and the lemmas of coq/proofs/Graph*.v that NoopBridge.v / NoopCone2.v import "
     "(closed under the global context as well)",
     "translator/gen_noop.py: AST/SQL fingerprints of the modelled functions, the apply rule of _run_hash_job, "
@@ -83,7 +95,11 @@ ASSUMPTIONS = [
     "C04_cone_invariant_partial2 holds under the protocol clauses of cone_op2 (requesters RUNNING, completed jobs in "
     "flight, hash-update paths of a completion in the cone, no idle optional step outside the cone dispatched, no "
     "orphaned BUILT input adopted): evaluated on every real E2 rebuild trace, not derived from a model of the executor",
-    "the cone is closed under cone membership: an over-approximation of the property's clauses about executed steps",
+    "on Graph.st the cone is closed under cone membership (an over-approximation of the property's clauses about executed "
+    "steps); the statement about EXECUTED steps with absorption by identical rebuilds is proved on the engine model "
+    "(C04_exec_cone_*), which has no optional steps, no plan steps (re-planning is the abstract P -> P') and one schedule",
+    "C04_exec_cone_amend_partial assumes K_a (no stale success over declared ++ remembered amended inputs) of the state "
+    "the rebuild starts from; not derived for all histories of the gated engine",
 ]
 
 SETTINGS = {
@@ -629,7 +645,7 @@ def _check_engine_terms(ctx):
         ctx.case(("engine", item["seed"], item["flavour"]), nontrivial=bool(rep["cone_log"]["skipped"]))
     for b in bad[:2]:
         item, rep = pairs[b]
-        term = rep["engine_term"].replace("check_cone_dyn", "trace_cone_dyn", 1)
+        term = rep["engine_term"].replace("check_cone_dyn", "trace_cone_dyn", 1).replace("check_cone_amend", "trace_cone_amend", 1)
         got = common.eval_terms(ctx, "c04enginediag", ENGINE_HEADER, [term])
         ctx.add_failure("correspondence", "E3:Engine", f"E3:engine:{item['flavour']}:executed-or-skipped-set-differs",
                         f"seed {item['seed']} ({rep.get('variant')}): model/Engine.v and the real director disagree on "
